@@ -5,9 +5,11 @@ package vh
 // lists, context records and action groups), type-directed policy generation against a schema
 // (well-typed by construction + near-miss mutations) and schema-conforming requests / entity stores.
 //
-// Never generated (they crash the validator itself and belong to C16): self-referential entity
-// hierarchies (`entity G in [G]`, or any cycle) and set/record/extension *literal values*
-// (ast.NodeValue only ever holds Boolean, Long, String or EntityUID here).
+// Never generated here (they belong to C16, which runs every validator call in a crash-isolating worker
+// process; this stream runs the validator in-process): self-referential entity hierarchies
+// (`entity G in [G]`, or any cycle — before the repair of `entity-descendant-unbounded-recursion` a fatal,
+// unrecoverable stack overflow) and set/record/extension *literal values* (ast.NodeValue only ever holds
+// Boolean, Long, String or EntityUID here; before the repair of `typeofvalue-non-entity-literal-panic` a panic).
 
 import (
 	"fmt"
